@@ -68,7 +68,7 @@ Qed.
 Lemma wf_trailing_clean t : wf_trailing t = true -> valid_utf8 t = true -> clean_field t = true.
 Proof.
   intros H Hv. unfold clean_field. rewrite Hv, no_crlf_clean. cbn [andb].
-  eapply forallb_impl; [|exact H]. intros x Hx. unfold trailing_byte, is_nul_cr_lf in Hx. unfold clean, is_crlf. lia.
+  eapply forallb_impl; [|exact H]. exact trailing_byte_clean.
 Qed.
 
 Lemma wf_mid_clean m : wf_mid m = true -> clean_field m = true.
@@ -197,7 +197,7 @@ Proof.
     + apply wf_tags_meaning; [|exact Hut]. destruct l; [discriminate|exact Htags].
     + exact Hfit.
   - unfold min_line. cbn [we_cmd]. destruct (wf_cmd_alnum _ Hcmd) as [Hlen _].
-    unfold to_upper_ascii. rewrite map_length. destruct (Nat.leb 2 (length (a_cmd a))) eqn:E; [reflexivity|lia].
+    unfold to_upper_ascii. rewrite map_length. rewrite (proj2 (Nat.leb_le 2 _) Hlen). reflexivity.
 Qed.
 
 (* parse ∘ String ∘ parse = parse on well-formed lines *)
